@@ -12,7 +12,10 @@
              | FAIL <n> | STUCK | DONE <hex of the embedding file>                         (M)
      A { readings } argvhex...    model from the raw argv (cxxopts scan + cli_decide gen_tables)
      T { readings } argvhex...    specification from the raw argv
-     B <code> <echo> { readings } argvhex...   obs_ok_argv *)
+     B <code> <echo> { readings } argvhex...   obs_ok_argv
+     I <hex>                      int_parse (model of cxxopts integer_parser<int>)  -> <int> | -
+   The INTEGER reading of every option value is computed here by the extracted int_parse; the integer field
+   of the <args> / readings syntax is ignored (kept for compatibility). *)
 open C20_model
 
 let rec pos_of_int n = if n = 1 then XH else if n land 1 = 1 then XI (pos_of_int (n lsr 1)) else XO (pos_of_int (n lsr 1))
@@ -51,8 +54,8 @@ let q_of_string s =
 let parse_arg tok =
   match String.split_on_char ':' tok with
   | [name; "F"] -> (coq_of_string name, AFlag)
-  | [name; "V"; raw; zi; qd] ->
-    let zi' = if zi = "-" then None else Some (z_of_int (int_of_string zi)) in
+  | [name; "V"; raw; _; qd] ->
+    let zi' = int_parse (coq_of_string (unhex raw)) in
     let qd' = if qd = "-" then None else Some (q_of_string qd) in
     (coq_of_string name, AVal (coq_of_string (unhex raw), zi', qd'))
   | _ -> failwith ("bad arg " ^ tok)
@@ -156,7 +159,7 @@ let split_readings toks =
         (match String.split_on_char ':' t with
          | [h; zi; qd] ->
            let s = if h = "-" then "" else unhex h in
-           let zi' = if zi = "-" then None else Some (z_of_int (int_of_string zi)) in
+           let zi' = (ignore zi; int_parse (coq_of_string s)) in
            let qd' = if qd = "-" then None else Some (q_of_string qd) in
            go ((s, (zi', qd')) :: acc) rest
          | _ -> failwith ("bad reading " ^ t))
@@ -198,6 +201,10 @@ let () =
          let (echo, r') = split_echo r in
          let (rdt, toks') = split_readings r' in
          print_string (if obs_ok_argv (rd_of rdt) (argv_of toks') (z_of_int (int_of_string code)) echo then "OK" else "BAD")
+       | ["I"; h] ->
+         (match int_parse (coq_of_string (if h = "-" then "" else unhex h)) with
+          | Some z -> print_string (string_of_int (int_of_z z))
+          | None -> print_string "-")
        | [] -> print_string "EMPTY"
        | _ -> print_string "ERROR bad request");
       print_newline ()
